@@ -817,6 +817,11 @@ func changeTimelineTimescale(inSTL *m.SegmentTimelineType, oldTimescale, newTime
 	o := m.SegmentTimelineType{}
 	o.S = make([]*m.S, 0, len(inSTL.S))
 	for _, s := range inSTL.S {
+		if s.T == nil {
+			// Only the first entry (or an entry after a gap) carries a start time
+			o.S = append(o.S, &m.S{D: round(s.D), R: s.R})
+			continue
+		}
 		outS := m.S{
 			T: m.Ptr(round(*s.T)),
 			N: nil,
